@@ -92,6 +92,20 @@ pub fn st_lowercase_lookup(c: char) -> bool {
     }
 }
 
+fn case_pred(v: Option<bool>) -> bool {
+    match v {
+        Some(b) => b,
+        None => {
+            assert!(false, "MODEL: character outside the case-mapping witness alphabet");
+            false
+        }
+    }
+}
+/// reachable only from a changed implementation (e.g. str::to_lowercase's Final_Sigma rule)
+pub fn st_uppercase_lookup(c: char) -> bool { case_pred(super::oracle::case_is_upper(c)) }
+pub fn st_lt_lookup(c: char) -> bool { case_pred(super::oracle::case_is_lt(c)) }
+pub fn st_case_ignorable_lookup(c: char) -> bool { case_pred(super::oracle::case_is_ignorable(c)) }
+
 // ---- S-WIDTH: the width table lookup replaced by the oracle function (Layer A: c11_width_one) ---------
 pub fn st_width(cp: u32) -> Option<u32> {
     let m = super::oracle::width_map(cp);
@@ -309,4 +323,167 @@ where
     let rest: &'a str = unsafe { core::str::from_utf8_unchecked(&b[n..]) };
     *it = rest.chars();
     Some(unsafe { char::from_u32_unchecked(v) })
+}
+
+// ---- S-PREDO: every table predicate = the oracle predicate of the code point (pred_mask / exception_val trees).
+// Unlike S-PRED the outcomes are those of the real 6.3.0 data (C14 Layer A), so counterexamples replay natively.
+static TABLE_VALUES_ALL: [precis_core::DerivedPropertyValue; 7] = [
+    precis_core::DerivedPropertyValue::PValid,
+    precis_core::DerivedPropertyValue::SpecClassPval,
+    precis_core::DerivedPropertyValue::SpecClassDis,
+    precis_core::DerivedPropertyValue::ContextJ,
+    precis_core::DerivedPropertyValue::ContextO,
+    precis_core::DerivedPropertyValue::Disallowed,
+    precis_core::DerivedPropertyValue::Unassigned,
+];
+static mut SO_CP: u32 = 0;
+static mut SO_MASK: u16 = 0;
+static mut SO_EXC: u8 = 255;
+/// the harness evaluates the oracle ONCE for its code point; the stubs read the cached value
+pub fn predo_set(cp: u32) {
+    unsafe {
+        SO_CP = cp;
+        SO_MASK = super::oracle::pred_mask(cp);
+        SO_EXC = super::oracle::exception_val(cp);
+    }
+}
+pub fn so_exception(cp: u32) -> Option<&'static precis_core::DerivedPropertyValue> {
+    assert!(cp == unsafe { SO_CP }, "MODEL: S-PREDO used for another code point than the cached one");
+    let e = unsafe { SO_EXC };
+    if e == 255 {
+        None
+    } else {
+        Some(&TABLE_VALUES_ALL[e as usize])
+    }
+}
+pub fn so_backward(_cp: u32) -> Option<&'static precis_core::DerivedPropertyValue> {
+    None
+}
+fn so_bit(cp: u32, bit: u16) -> bool {
+    assert!(cp == unsafe { SO_CP }, "MODEL: S-PREDO used for another code point than the cached one");
+    unsafe { SO_MASK & bit != 0 }
+}
+pub fn so_unassigned(cp: u32) -> bool { so_bit(cp, 1) }
+pub fn so_ascii7(cp: u32) -> bool { so_bit(cp, 2) }
+pub fn so_join_control(cp: u32) -> bool { so_bit(cp, 4) }
+pub fn so_old_hangul_jamo(cp: u32) -> bool { so_bit(cp, 8) }
+pub fn so_ignorable(cp: u32) -> bool { so_bit(cp, 16) }
+pub fn so_control(cp: u32) -> bool { so_bit(cp, 32) }
+pub fn so_has_compat(cp: u32) -> bool { so_bit(cp, 64) }
+pub fn so_letter_digit(cp: u32) -> bool { so_bit(cp, 128) }
+pub fn so_other_letter_digit(cp: u32) -> bool { so_bit(cp, 256) }
+pub fn so_space(cp: u32) -> bool { so_bit(cp, 512) }
+pub fn so_symbol(cp: u32) -> bool { so_bit(cp, 1024) }
+pub fn so_punctuation(cp: u32) -> bool { so_bit(cp, 2048) }
+
+// ---- S-COUNT: <Chars as Iterator>::count (std: chunked word-at-a-time counter) replaced by the defining loop
+pub fn s_chars_count<'a>(it: core::str::Chars<'a>) -> usize
+where
+    'a: 'a,
+{
+    let mut it = it;
+    let mut n = 0usize;
+    while it.next().is_some() {
+        n += 1;
+    }
+    n
+}
+
+// ---- S-RULESPEC: the REAL registry shape, with each rule replaced by its RFC 5892 specification evaluated on the
+// label's character array (published by the harness in ANY_CS / ANY_N).  Cheap, and -- unlike S-RULE -- every
+// scenario exists on the real code (C03 decides rule == specification), so counterexamples replay natively.
+pub static mut ANY_N: usize = 0;
+type RuleR = Result<bool, precis_core::context::ContextRuleError>;
+fn rs_at(off: usize) -> Option<u32> {
+    unsafe {
+        if off < ANY_N && off < 8 {
+            Some(ANY_CS[off])
+        } else {
+            None
+        }
+    }
+}
+fn rs_has(cp: u32, bit: u16) -> bool {
+    super::oracle::ctx_mask(cp) & bit != 0
+}
+fn rs_own(off: usize, lo: u32, hi: u32) -> Result<u32, precis_core::context::ContextRuleError> {
+    match rs_at(off) {
+        None => Err(precis_core::context::ContextRuleError::Undefined),
+        Some(c) => {
+            if lo <= c && c <= hi {
+                Ok(c)
+            } else {
+                Err(precis_core::context::ContextRuleError::NotApplicable)
+            }
+        }
+    }
+}
+pub fn rs_zwj(_s: &str, off: usize) -> RuleR {
+    rs_own(off, 0x200d, 0x200d)?;
+    if off == 0 {
+        return Err(precis_core::context::ContextRuleError::Undefined);
+    }
+    Ok(rs_has(rs_at(off - 1).unwrap_or(0), super::oracle::CTX_VIRAMA))
+}
+pub fn rs_middle_dot(_s: &str, off: usize) -> RuleR {
+    rs_own(off, 0xb7, 0xb7)?;
+    if off == 0 {
+        return Err(precis_core::context::ContextRuleError::Undefined);
+    }
+    match rs_at(off + 1) {
+        None => Err(precis_core::context::ContextRuleError::Undefined),
+        Some(n) => Ok(rs_at(off - 1) == Some(0x6c) && n == 0x6c),
+    }
+}
+pub fn rs_keraia(_s: &str, off: usize) -> RuleR {
+    rs_own(off, 0x375, 0x375)?;
+    match rs_at(off + 1) {
+        None => Err(precis_core::context::ContextRuleError::Undefined),
+        Some(n) => Ok(rs_has(n, super::oracle::CTX_GREEK)),
+    }
+}
+pub fn rs_hebrew(_s: &str, off: usize) -> RuleR {
+    rs_own(off, 0x5f3, 0x5f4)?;
+    if off == 0 {
+        return Err(precis_core::context::ContextRuleError::Undefined);
+    }
+    Ok(rs_has(rs_at(off - 1).unwrap_or(0), super::oracle::CTX_HEBREW))
+}
+fn rs_any(lo: u32, hi: u32, mask: u16) -> bool {
+    let mut i = 0;
+    let mut r = false;
+    while i < 8 {
+        if let Some(c) = rs_at(i) {
+            if (mask == 0 && lo <= c && c <= hi) || (mask != 0 && super::oracle::ctx_mask(c) & mask != 0) {
+                r = true;
+            }
+        }
+        i += 1;
+    }
+    r
+}
+pub fn rs_katakana(_s: &str, off: usize) -> RuleR {
+    rs_own(off, 0x30fb, 0x30fb)?;
+    Ok(rs_any(0, 0, super::oracle::CTX_HIRAGANA | super::oracle::CTX_KATAKANA | super::oracle::CTX_HAN))
+}
+pub fn rs_arabic(_s: &str, off: usize) -> RuleR {
+    rs_own(off, 0x660, 0x669)?;
+    Ok(!rs_any(0x6f0, 0x6f9, 0))
+}
+pub fn rs_ext_arabic(_s: &str, off: usize) -> RuleR {
+    rs_own(off, 0x6f0, 0x6f9)?;
+    Ok(!rs_any(0x660, 0x669, 0))
+}
+/// the real registry's shape (ZWNJ is left out: labels of this harness never contain U+200C)
+pub fn sr_get_rule_spec(cp: u32) -> Option<precis_core::context::ContextRule> {
+    match cp {
+        0x00b7 => Some(rs_middle_dot),
+        0x200d => Some(rs_zwj),
+        0x0375 => Some(rs_keraia),
+        0x05f3 | 0x05f4 => Some(rs_hebrew),
+        0x30fb => Some(rs_katakana),
+        0x0660..=0x0669 => Some(rs_arabic),
+        0x06f0..=0x06f9 => Some(rs_ext_arabic),
+        _ => None,
+    }
 }
